@@ -287,6 +287,25 @@ fn main() {
             }
         }
     }
+    // many sources: source counts around the powers of two a threshold would sit at (a bit set in a
+    // machine word, a fixed-size table), lengths 1, 0, 2 cyclically (the weighted strategy: 1, 2)
+    {
+        let counts = tu_verif::enumerate::threshold_lengths(run.pick(6, 8));
+        let long_units = tu_verif::enumerate::threshold_lengths(run.pick(8, 10)).len();
+        run.bounds.insert("many_sources".into(), json!(format!("source counts {counts:?} x every strategy x seeds {{0, 1}}")));
+        for (k, c) in counts.iter().enumerate() {
+            if !run.unit((nunits + long_units + k) as u64) {
+                continue;
+            }
+            for strategy in 0..STRATEGIES.len() {
+                let weighted = STRATEGIES[strategy].0 == GenerationStrategy::Weighted;
+                let lens: Vec<usize> = (0..*c).map(|i| if weighted { 1 + i % 2 } else { [1, 0, 2][i % 3] }).collect();
+                for seed in [0u64, 1] {
+                    check(&mut run, &lens, strategy, seed);
+                }
+            }
+        }
+    }
     let mut orders: Vec<Vec<usize>> = vec![];
     for unit in 0..nunits {
         let (lens, strategy) = (&vectors[unit / STRATEGIES.len()], unit % STRATEGIES.len());
